@@ -110,7 +110,152 @@ def extract():
     t["nCallsInit"] = "0" if "self.n_calls = 0" in _src(init) else "?"
     rets = [n for n in ast.walk(run) if isinstance(n, ast.Return)]
     t["runReturnsNCalls"] = "1" if rets and _src(rets[-1].value).rstrip(")").endswith("self.n_calls") else "0"
+    _extract_run_facts(t, core, mu, mc, ll, mrun, ev, run)
     return t
+
+
+def _plain_func(tree, name):
+    for node in ast.walk(tree):
+        if isinstance(node, ast.FunctionDef) and node.name == name:
+            return node
+    raise Unavailable(f"function {name} not found")
+
+
+def _calls_writes(path, rel):
+    """every place of one file that writes the literal key 'calls' of the current state: (file:function:kind, value source)"""
+    tree = ast.parse(open(path).read())
+    out = []
+    for fn in ast.walk(tree):
+        if not isinstance(fn, ast.FunctionDef):
+            continue
+        for n in ast.walk(fn):
+            if isinstance(n, ast.Call) and isinstance(n.func, ast.Attribute):
+                if n.func.attr == "set_current" and n.args and isinstance(n.args[0], ast.Constant) and n.args[0].value == "calls":
+                    out.append((n.lineno, f"{rel}:{fn.name}:set", _src(n.args[1]) if len(n.args) > 1 else "?"))
+                if n.func.attr == "update_current" and n.args and isinstance(n.args[0], ast.Dict):
+                    for k, v in zip(n.args[0].keys, n.args[0].values):
+                        if isinstance(k, ast.Constant) and k.value == "calls":
+                            out.append((n.lineno, f"{rel}:{fn.name}:update", _src(v)))
+            if isinstance(n, ast.Assign) and isinstance(n.value, ast.Dict) and len(n.targets) == 1 and _src(n.targets[0]) == "required_keys":
+                for k, v in zip(n.value.keys, n.value.values):
+                    if isinstance(k, ast.Constant) and k.value == "calls":
+                        out.append((n.lineno, f"{rel}:{fn.name}:default", _src(v)))
+            if isinstance(n, (ast.Assign, ast.AugAssign)):
+                tg = n.targets[0] if isinstance(n, ast.Assign) else n.target
+                if isinstance(tg, ast.Subscript) and isinstance(tg.slice, ast.Constant) and tg.slice.value == "calls" \
+                        and "_current" in _src(tg.value):
+                    out.append((n.lineno, f"{rel}:{fn.name}:direct", _src(n.value)))
+    return out
+
+
+def _extract_run_facts(t, core, mu, mc, ll, mrun, ev, run):
+    """facts used by the whole-run accounting model (Model/CallsRun.lean) and the value-level model (Model/LogLike.lean).
+    Every fact is a NORMALISED token; a source shape that is not recognised raises Unavailable (policy of DESIGN §3.1)."""
+    # -- every writer of state['calls'] in the package (frame condition of the accounting model)
+    writes = []
+    root = os.path.join(common.REPO, "tempest")
+    for dp, _dn, fns in os.walk(root):
+        for fname in sorted(fns):
+            if fname.endswith(".py"):
+                full = os.path.join(dp, fname)
+                rel = os.path.relpath(full, root)
+                writes += [(rel, ln, tag, val) for ln, tag, val in _calls_writes(full, rel)]
+    writes.sort()
+    t["callsWriters"] = [(tag, val) for _f, _ln, tag, val in writes]
+    fresh = [v for tag, v in t["callsWriters"] if tag == "core.py:_initialize_fresh:set"]
+    dflt = [v for tag, v in t["callsWriters"] if tag == "core.py:load_sampler_state:default"]
+    if len(fresh) != 1 or len(dflt) != 1:
+        raise Unavailable("initial value of 'calls' (fresh / resumed run) not found where expected")
+    t["freshCalls"], t["resumeDefault"] = fresh[0], dflt[0]
+    lsrc = _src(_func(core, "SamplerCore", "load_sampler_state"))
+    if "self.state.update_from_dict(d)" not in lsrc:
+        raise Unavailable("load_sampler_state: update_from_dict(d) not found")
+    t["resumeDefaultOnlyIfNone"] = "1" if ("if self.state.get_current(key) is None:" in lsrc
+                                           and "self.state.set_current(key, default_val)" in lsrc) else "0"
+    # -- _log_like: statements per dispatch branch, references to the user's function
+    stmts = []
+    for st in ll.body:
+        if isinstance(st, ast.If):
+            node = st
+            while True:
+                stmts.append(len(node.body))
+                if len(node.orelse) == 1 and isinstance(node.orelse[0], ast.If):
+                    node = node.orelse[0]
+                else:
+                    stmts.append(len(node.orelse))
+                    break
+            break
+    t["logLikeBranchStmts"] = ",".join(map(str, stmts))
+    t["logLikeUserRefs"] = str(sum(1 for n in ast.walk(ll) if isinstance(n, ast.Attribute) and _src(n) == "self.config.log_likelihood"))
+    # -- FunctionWrapper
+    tools = ast.parse(open(os.path.join(common.REPO, "tempest/tools.py")).read())
+    wcall = _func(tools, "FunctionWrapper", "__call__")
+    rets = [n for n in ast.walk(wcall) if isinstance(n, ast.Return)]
+    par = [a.arg for a in wcall.args.args if a.arg != "self"]
+    if len(rets) != 1 or len(par) != 1 or not isinstance(rets[0].value, ast.Call):
+        raise Unavailable("FunctionWrapper.__call__: expected one parameter and one `return <call>`")
+    c = rets[0].value
+    ok = (_src(c.func) == "self.f" and len(c.args) == 2 and _src(c.args[0]) == par[0] and isinstance(c.args[1], ast.Starred)
+          and _src(c.args[1].value) == "self.args" and len(c.keywords) == 1 and c.keywords[0].arg is None
+          and _src(c.keywords[0].value) == "self.kwargs")
+    t["wrapperCall"] = "f(x,*args,**kwargs)" if ok else _src(c)
+    winit = _func(tools, "FunctionWrapper", "__init__")
+    wi = []
+    for st in winit.body:
+        if isinstance(st, ast.Assign):
+            src = _src(st)
+            wi.append({"self.f = f": "f", "self.args = [] if args is None else args": "args:None->[]",
+                       "self.kwargs = {} if kwargs is None else kwargs": "kwargs:None->{}"}.get(src, src))
+    t["wrapperInit"] = wi
+    # -- Mutator.run: where the likelihood is called, and on what
+    warm_if = [st for st in mrun.body if isinstance(st, ast.If) and _src(st.test) == "beta == 0.0"]
+    if len(warm_if) != 1:
+        raise Unavailable("Mutator.run: `if beta == 0.0:` not found")
+
+    def like_calls(nodes):
+        out = []
+        for st in nodes:
+            for n in ast.walk(st):
+                if isinstance(n, ast.Call) and _src(n.func) == "self.log_likelihood":
+                    out.append(",".join(_src(a) for a in n.args))
+        return out
+
+    def batch_of(name, nodes):
+        """normalised description of how the array `name` is built"""
+        for st in nodes:
+            for n in ast.walk(st):
+                if isinstance(n, ast.Assign) and len(n.targets) == 1 and _src(n.targets[0]) == name:
+                    v = n.value
+                    if isinstance(v, ast.Call) and _src(v.func) == "np.array" and len(v.args) == 1 and isinstance(v.args[0], ast.ListComp):
+                        lc = v.args[0]
+                        g = lc.generators[0]
+                        if len(lc.generators) == 1 and not g.ifs and isinstance(lc.elt, ast.Call) and _src(lc.elt.func) == "self.prior_transform":
+                            return f"prior_transform over {_src(g.iter)}"
+                    return _src(v)
+        return "?"
+    t["warmupLikelihoodArgs"] = [batch_of(a, warm_if[0].body) for a in like_calls(warm_if[0].body)]
+    t["mutateOtherLikelihoodArgs"] = like_calls([st for st in mrun.body if st is not warm_if[0]])
+    t["warmupEndsWithReturn"] = "1" if isinstance(warm_if[0].body[-1], ast.Return) else "0"
+    kw = [k for n in ast.walk(mrun) if isinstance(n, ast.Call) and _src(n.func) == "parallel_mcmc" for k in n.keywords if k.arg == "log_likelihood"]
+    if len(kw) != 1:
+        raise Unavailable("Mutator.run: parallel_mcmc(log_likelihood=…) not found")
+    t["mcmcLikelihoodArg"] = _src(kw[0].value)
+    # -- _evaluate_likelihood: what is evaluated (normalised: the function's own parameter)
+    epar = [a.arg for a in ev.args.args if a.arg != "self"]
+    t["evaluateLikelihoodArgs"] = ["param" if (len(epar) == 1 and a == epar[0]) else a for a in like_calls(ev.body)]
+    # -- BaseMCMCRunner.run: what `_evaluate_likelihood` receives; one `while True`, left only by `if _check_convergence(...): break`
+    evargs = [",".join(_src(a) for a in n.args) for n in ast.walk(run) if isinstance(n, ast.Call) and _src(n.func) == "self._evaluate_likelihood"]
+    t["stepBatchBuilt"] = [batch_of(a, run.body) for a in evargs]
+    ups = [_src(st.value) for st in ast.walk(run) if isinstance(st, ast.Assign) and _src(st.targets[0]) == "u_prime"]
+    t["proposalRows"] = ups
+    whiles = [n for n in ast.walk(run) if isinstance(n, ast.While)]
+    breaks = [n for n in ast.walk(run) if isinstance(n, ast.Break)]
+    guards = [n for n in ast.walk(run) if isinstance(n, ast.If) and any(isinstance(b, ast.Break) for b in n.body)]
+    if len(whiles) != 1:
+        raise Unavailable("BaseMCMCRunner.run: expected exactly one while loop")
+    gt = guards[0].test if len(guards) == 1 else None
+    gname = _src(gt.func) if isinstance(gt, ast.Call) else "?"
+    t["mcmcLoop"] = f"while {_src(whiles[0].test)}|breaks={len(breaks)}|guard={gname}"
 
 
 def render(t):
@@ -121,6 +266,14 @@ def render(t):
     for k in ("warmupIncrement", "mcmcIncrement", "warmupBatch", "stepIncrement", "stepLikelihoodCalls", "stepEvaluations",
               "stepBatch", "nCallsInit", "runReturnsNCalls"):
         L.append(f'def {k} : String := "{t[k]}"')
+    def q(x):
+        return '"' + x.replace('\\', '\\\\').replace('"', '\\"') + '"'
+    for k in ("freshCalls", "resumeDefault", "resumeDefaultOnlyIfNone", "logLikeBranchStmts", "logLikeUserRefs", "wrapperCall",
+              "warmupEndsWithReturn", "mcmcLikelihoodArg", "mcmcLoop"):
+        L.append(f"def {k} : String := {q(t[k])}")
+    for k in ("wrapperInit", "warmupLikelihoodArgs", "mutateOtherLikelihoodArgs", "evaluateLikelihoodArgs", "stepBatchBuilt", "proposalRows"):
+        L.append(f"def {k} : List String := [" + ", ".join(q(x) for x in t[k]) + "]")
+    L.append("def callsWriters : List (String × String) := [" + ", ".join(f"({q(a)}, {q(b)})" for a, b in t["callsWriters"]) + "]")
     L += ["", "end Gen.Dispatch", ""]
     return "\n".join(L)
 
